@@ -1,6 +1,7 @@
 import Proofs.ForPrefixes
 import Proofs.Resolve
 import Proofs.PagesApi
+import Proofs.HeadlinesAll
 /-! C05 — webentity page sets, in full (Proofs/PagesApi): in every reachable state, asking webentity `w`
     with its full current prefix list (`FullPrefixList`: any order, the list `webentity_prefix_iter` yields
     qualifies, `C05_prefix_list_exists`) answers exactly the indexed pages whose resolution is `w`, with
@@ -106,5 +107,33 @@ theorem C05_nested {s : State} {t : T} (h : Shape s t) (hi : Inv s t) {w : Nat} 
     (hQ : IsPrefixOf s v Q) (hQX : Q <+: lruIter lru) :
     ∃ P, IsPrefixOf s w P ∧ Q <+: P ∧ P <+: lruIter lru :=
   Traph.C05_nested h hi hf hl hm hv hQ hQX
+
+section EveryHistory
+open Traph State Pag Layout
+/-! ### every history (Proofs/Discipline, SinceClear, ReachableAll, HeadlinesAll) -/
+
+/-- EVERY HISTORY, `clear` and `reopen` included, no request assumed away: the only hypotheses are that byte strings cut into at least one stem (`OpWf`), rule anchors are whole LRUs (`rulesCanonical`, `Canon`) and the caller re-supplies on `reopen` the rules the index carries, as the API requires (`Disciplined`); `clear` acts as a reset (`sinceClear`).  -/
+theorem C05_all {s : State} (hs : Reachable s) :
+    ∃ t, Shape s t ∧ Inv s t ∧
+      (∀ w ps, FullPrefixList s w ps →
+        ∃ l, s.webentityPages ps = .ok l ∧
+          (∀ lru c, (lru, c) ∈ l ↔
+            lru = (lruIter lru).flatten ∧ IsPage s t (lruIter lru) ∧ s.retrieveWebentity lru = .ok w ∧
+              (c = true ↔ IsCrawled s t (lruIter lru))) ∧
+          ((ps.map lruIter).Nodup → (l.map (·.1)).Nodup) ∧
+          (∀ lru c, (lru, c) ∈ l → ∃ P, P <+: lruIter lru ∧ IsPrefixOf s w P ∧
+            (l.map (·.1)).count lru = (ps.map lruIter).count P) ∧
+          (∀ X, IsPage s t X → s.retrieveWebentity X.flatten = .ok w → ∃ c, (X.flatten, c) ∈ l) ∧
+          (∀ lru c, (lru, c) ∈ l → ∀ w' ps' l', FullPrefixList s w' ps' → s.webentityPages ps' = .ok l' →
+            (∃ c', (lru, c') ∈ l') → w' = w) ∧
+          (∀ lru e, s.retrieveWebentity lru = .error e → ∀ c, (lru, c) ∉ l) ∧
+          s.webentityCrawledPages ps = .ok (l.filter (·.2)) ∧
+          (∀ lru c, (lru, c) ∈ l.filter (·.2) ↔
+            c = true ∧ lru = (lruIter lru).flatten ∧ IsCrawled s t (lruIter lru) ∧
+              s.retrieveWebentity lru = .ok w)) ∧
+      (∀ w, w ≠ 0 → FullPrefixList s w (prefixesOf s w) ∧ ((prefixesOf s w).map lruIter).Nodup) :=
+  Traph.C05_all hs
+
+end EveryHistory
 
 end Traph.Props
